@@ -208,7 +208,8 @@ HOSTILE = [
     'A(F(p) and G(q))', 'A((p U q) or X r)', 'p U (q R r)', '(p U q) R r',
     'not (p U q)', 'not p U q', 'A not p', 'A not X p', '\tp\n', 'p;',
     'A(F p) --> E(G q)', '"p q" and r', "'p'", 'p # comment', '--> p',
-    'p -->', '-- > p', 'p - -> q',
+    'p -->', '-- > p', 'p - -> q', '"\\users\\bob"', '"a\\b" and p',
+    '"\\x"', '"\\N{dash}" or q', 'A X "tab\\t"', '"caf\u00e9"',
 ]
 
 
